@@ -28,6 +28,7 @@ def run(v, tier):
         key = f"{clause}:{ev['m']}:{tkey([c for c in t['calls'][:line]])}"
         v.fail(key, f"after calls {[c['m'] for c in t['calls'][:line]]} (phase {t['phase']}): clause {clause} at call {line} ({ev['m']})",
                {'family': 'gen', 'case': {'phase': t['phase'], 'calls': t['calls'], 'clause': clause, 'line': line}})
+    memo(v, quick)
     # whole modules, both optimise settings
     mt = gen.module_traces(SHIPPED if not quick else SHIPPED[:3] + ['definedness'])
     v.sample({'module': mt[0]['name'], 'optimize': mt[0]['optimize'], 'events': len(mt[0]['events'])})
@@ -38,3 +39,39 @@ def run(v, tier):
         key = f"{clause}:module:{t['name']}:{t['optimize']}:{line}"
         v.fail(key, f"module {t['name']} optimize={t['optimize']}: clause {clause} at event {line} ({t['events'][line-1]['m'] if line <= len(t['events']) else 'end'})",
                {'family': 'gen', 'case': {'module': t['name'], 'optimize': t['optimize'], 'line': line, 'clause': clause}})
+
+
+def memo(v, quick):
+    """the memoising wrapper: (A) MC_Memo - for every pattern p of the universe, every memo set S and initial memory, the composite
+    pattern(p) preserves Rel and builds exactly p; (B) sampled cases replayed on the real MemoizingInterpreter; (C) Trace_Gen on the
+    primitive calls it made, and their method sequence against Memo!PatCalls"""
+    import random, funcs, lem
+    rng = random.Random(pi2v.SEED)
+    res, n = funcs.run_blocks(v, 'C04', 'MC_Memo', 'c04-memo-model', None, f' Mode = "spec"\n MaxPSize = {6 if quick else 9}', bs=25)
+    if res.fails:
+        raise pi2v.MachineryError(f'MC_Memo: the memoisation model itself breaks Rel: {res.fails[:3]}')
+    cases = []
+    for line in res.out.splitlines():
+        line = line.strip()
+        if line.startswith('"MEMO '):
+            cases.append(json.loads(json.loads(line)[5:]))
+    v.cov['memo_composites_model_checked'] = len(cases)
+    cases = [c for c in cases if all(e['k'] == 'pat' for e in c['mem'])]
+    if len(cases) > (500 if quick else 5000):
+        cases = rng.sample(cases, 500 if quick else 5000)
+    reqs = [{'cmd': 'memo', 'p': c['p'], 'S': c['S'], 'mem': c['mem']} for c in cases]
+    out = lem.run_applications(reqs)
+    traces, tcases = [], []
+    for c, r in zip(cases, out):
+        traces.append({'phase': 'proof', 'claims': [], 'events': r['events'], 'final': {'module': False, 'axioms': [], 'claims': [], 'rust': 'none'}, 'case': c})
+        tcases.append({'p': c['p'], 'S': c['S'], 'mem': c['mem'], 'out': 'ok' if r['out'] == 'ok' else 'raise', 'methods': r['methods']})
+    for tid, line, clause in gen.validate(v, 'C04', 'c04-memo-replay', traces):
+        if clause.split('/')[0] in C04_CLAUSES:
+            c = traces[tid - 1]['case']
+            v.fail(f"memo-{clause}:{tkey(c['p'])}:{tkey(c['S'])}:{tkey(c['mem'])}", f"MemoizingInterpreter.pattern on {tkey(c['p'])[:200]} with memo set {tkey(c['S'])[:200]}: clause {clause} at event {line}",
+                   {'family': 'memo', 'case': c})
+    res2, _ = funcs.run_blocks(v, 'C04', 'MC_Memo', 'c04-memo-calls', tcases, ' Mode = "trace"\n MaxPSize = 1', bs=50)
+    for f in res2.fails:
+        c = tcases[f[1] - 1]
+        v.fail(f"memo-{f[2]}:{tkey(c['p'])}:{tkey(c['S'])}:{tkey(c['mem'])}", f"MemoizingInterpreter.pattern on {tkey(c['p'])[:200]} memo {tkey(c['S'])[:150]} made calls {c['methods']} ({c['out']}): clause {f[2]}",
+               {'family': 'memo', 'case': c})
